@@ -648,14 +648,46 @@ example : (Node.cacheStore toyC (Node.init 0) 7
     = [(7, [{ id := 8, data := 2, lastUpdate := 0, maxAge := 3600, version := 0,
               src := { uid := 2, len := 20, hid := 8, wire := .str 5 } }])] := by decide
 
-/-- In every reachable state a maintenance run is less than one value_maintenance interval away, and that interval does not
-    exceed the longest lifetime: an expired value is removed at most MAX_ENTRY_AGE seconds after it expired. -/
+/-- In every reachable state the timer field `nextClean` lies less than one value_maintenance interval ahead, and that
+    interval (generated) does not exceed MAX_ENTRY_AGE.  This bounds the timer only; what a run removes is
+    `expired_gone_after_clean`, and how old a stored value can be is `stored_lifetimes_are_real` below. -/
 theorem maintenance_is_never_far {Tok : Type} [DecidableEq Tok] (C : Crypto Tok) (t0 : Nat) (ops : List (Op Tok)) :
     ((Node.init t0).run C ops).now < ((Node.init t0).run C ops).nextClean ∧
     ((Node.init t0).run C ops).nextClean ≤ ((Node.init t0).run C ops).now + Gen.valueMaintenanceInterval ∧
     Gen.valueMaintenanceInterval ≤ Gen.maxEntryAge := by
   obtain ⟨h1, h2⟩ := cleanInv_run C ops (Node.init t0) (cleanInv_init t0)
   exact ⟨h1, h2, by decide⟩
+
+/-- Lifetimes are real, in every reachable state (all histories, both write paths): every stored value carries the time at
+    which it was stored (never in the future) and a lifetime of at most MAX_ENTRY_AGE (the generated `max_age` expression of
+    `on_store_request` never exceeds it).  Consequently, right after a maintenance run every value still stored was stored at
+    most MAX_ENTRY_AGE seconds ago: a value is gone after the first maintenance run later than its store time plus its
+    lifetime. -/
+theorem stored_lifetimes_are_real {Tok : Type} [DecidableEq Tok] (C : Crypto Tok) (t0 : Nat) (ops : List (Op Tok))
+    (k : Nat) :
+    (∀ v ∈ ((Node.init t0).run C ops).store.getItems k,
+        v.lastUpdate ≤ ((Node.init t0).run C ops).now ∧ v.maxAge ≤ Gen.maxEntryAge) ∧
+    (∀ v ∈ ((Node.init t0).run C ops).clean.store.getItems k,
+        ((Node.init t0).run C ops).now ≤ v.lastUpdate + v.maxAge ∧
+        ((Node.init t0).run C ops).now ≤ v.lastUpdate + Gen.maxEntryAge) := by
+  have ht := timed_run C ops (Node.init t0) (by intro k v hv; simp [Node.init, Storage.getItems] at hv)
+  generalize (Node.init t0).run C ops = n at ht
+  refine ⟨fun v hv => ht k v hv, ?_⟩
+  intro v hv
+  have hne := (no_expired_after_maintenance n k 0 none).1 v hv
+  have hmem : v ∈ n.store.getItems k := by
+    simp only [Node.clean] at hv
+    rw [expired_gone_after_clean] at hv
+    exact (List.mem_filter.mp hv).1
+  obtain ⟨h1, h2⟩ := ht k v hmem
+  have hle : n.now - v.lastUpdate ≤ v.maxAge := by
+    simpa [Value.expired, Gen.expiredCmp, Cmp.eval] using hne
+  omega
+
+/-- the `max_age` an accepted store request assigns never exceeds MAX_ENTRY_AGE and halves per closer node beyond TARGET_NODES -/
+theorem store_max_age_bounded (nc : Nat) : Gen.storeMaxAge nc ≤ Gen.maxEntryAge := storeMaxAge_le nc
+
+example : Gen.storeMaxAge 0 = 3600 ∧ Gen.storeMaxAge 8 = 1800 ∧ Gen.storeMaxAge 10 = 450 := by decide
 
 /-! ## the property, sentence by sentence, in every reachable state -/
 
